@@ -39,8 +39,8 @@ def req_s(n):
         "port_i": st.integers(0, 5), "second": st.one_of(st.sampled_from([0, 65535, 32768]), st.integers(0, 65535)),
         "plen": st.sampled_from([0, 1, 5, 40, 300, 1000, 1400]), "pseed": st.integers(0, 255),
         "tc": st.integers(0, 127), "hl": st.one_of(st.sampled_from([0, 1, 2, 10, 255]), st.integers(0, 255)),
-        "shape": st.integers(0, 2), "a": st.sampled_from([30, 100, 400, 1500, 5000]), "b": st.sampled_from([20, 100, 300, 1500]),
-        "angle": st.sampled_from([0, 30, 90, 135, 271]), "centre": st.integers(0, n), "d": st.integers(1, n - 1),
+        "shape": st.integers(0, 2), "a": st.sampled_from([30, 100, 400, 1500, 2500, 5000]), "b": st.sampled_from([20, 100, 300, 1500, 0, 0]),   # b = 0: same as a
+        "angle": st.sampled_from([0, 30, 45, 90, 135, 271]), "centre": st.integers(0, n), "d": st.integers(1, n - 1),
     })
 
 
@@ -190,6 +190,7 @@ def run_case(case):
                 ptt = PacketTransportType(HeaderType.GEOUNICAST, HeaderSubType.UNSPECIFIED)
             c = stp["centre"]
             centre = pos[c] if c < n else rg.destination(case["blat"], case["blon"], 20000, -15000)
+            stp = dict(stp, b=stp["b"] or stp["a"])
             area = Area(latitude=centre[0], longitude=centre[1], a=stp["a"], b=stp["b"], angle=stp["angle"])
             req = BTPDataRequest(btp_type=CommonNH.BTP_A if stp["btp"] == "A" else CommonNH.BTP_B, source_port=stp["second"], destination_port=port,
                                  destination_port_info=stp["second"], gn_packet_transport_type=ptt, gn_destination_address=make_addr(mids[d]),
